@@ -2,6 +2,7 @@ use crate::harness::PropFn;
 
 pub mod c01;
 pub mod c03;
+pub mod c04;
 pub mod c05;
 pub mod c07;
 pub mod c08;
@@ -10,12 +11,14 @@ pub mod c11;
 pub mod c12;
 pub mod c14;
 pub mod c16;
+pub mod c17;
 pub mod clonefam;
 
 pub const REGISTRY: &[(&str, PropFn)] = &[
     ("C01", c01::run),
     ("C02", clonefam::run_c02),
     ("C03", c03::run),
+    ("C04", c04::run),
     ("C05", c05::run),
     ("C06", clonefam::run_c06),
     ("C07", c07::run),
@@ -26,6 +29,7 @@ pub const REGISTRY: &[(&str, PropFn)] = &[
     ("C13", clonefam::run_c13),
     ("C14", c14::run),
     ("C16", c16::run),
+    ("C17", c17::run),
 ];
 
 pub fn lookup(name: &str) -> Option<PropFn> {
